@@ -252,3 +252,84 @@ macro_rules! for_configs_small {
         }
     };
 }
+
+/// Configurations grouped by equal bit width (C16): 16, 32, 64, 96, 128 bits in every digit type that can build them.
+#[macro_export]
+macro_rules! for_configs_eqw {
+    ($w:expr, $n:expr, $m:ident $(, $a:expr)*) => {
+        match ($w, $n) {
+            (8, 2) => $m!($crate::BUintD8<2>, $crate::BIntD8<2>, u8, 2 $(, $a)*),
+            (16, 1) => $m!($crate::BUintD16<1>, $crate::BIntD16<1>, u16, 1 $(, $a)*),
+            (8, 4) => $m!($crate::BUintD8<4>, $crate::BIntD8<4>, u8, 4 $(, $a)*),
+            (16, 2) => $m!($crate::BUintD16<2>, $crate::BIntD16<2>, u16, 2 $(, $a)*),
+            (32, 1) => $m!($crate::BUintD32<1>, $crate::BIntD32<1>, u32, 1 $(, $a)*),
+            (8, 8) => $m!($crate::BUintD8<8>, $crate::BIntD8<8>, u8, 8 $(, $a)*),
+            (16, 4) => $m!($crate::BUintD16<4>, $crate::BIntD16<4>, u16, 4 $(, $a)*),
+            (32, 2) => $m!($crate::BUintD32<2>, $crate::BIntD32<2>, u32, 2 $(, $a)*),
+            (64, 1) => $m!($crate::BUint<1>, $crate::BInt<1>, u64, 1 $(, $a)*),
+            (8, 12) => $m!($crate::BUintD8<12>, $crate::BIntD8<12>, u8, 12 $(, $a)*),
+            (16, 6) => $m!($crate::BUintD16<6>, $crate::BIntD16<6>, u16, 6 $(, $a)*),
+            (32, 3) => $m!($crate::BUintD32<3>, $crate::BIntD32<3>, u32, 3 $(, $a)*),
+            (8, 16) => $m!($crate::BUintD8<16>, $crate::BIntD8<16>, u8, 16 $(, $a)*),
+            (16, 8) => $m!($crate::BUintD16<8>, $crate::BIntD16<8>, u16, 8 $(, $a)*),
+            (32, 4) => $m!($crate::BUintD32<4>, $crate::BIntD32<4>, u32, 4 $(, $a)*),
+            (64, 2) => $m!($crate::BUint<2>, $crate::BInt<2>, u64, 2 $(, $a)*),
+            _ => $crate::UNSUPPORTED.to_string(),
+        }
+    };
+}
+
+/// associated constants by name (C16)
+pub trait NamedConsts: Sized {
+    fn by_name(name: &str) -> Option<Self>;
+}
+macro_rules! named_consts {
+    ($U:ident, $I:ident) => {
+        impl<const N: usize> NamedConsts for $U<N> {
+            fn by_name(name: &str) -> Option<Self> {
+                Some(match name {
+                    "ZERO" => Self::ZERO, "MIN" => Self::MIN, "ONE" => Self::ONE, "TWO" => Self::TWO, "THREE" => Self::THREE,
+                    "FOUR" => Self::FOUR, "FIVE" => Self::FIVE, "SIX" => Self::SIX, "SEVEN" => Self::SEVEN,
+                    "EIGHT" => Self::EIGHT, "NINE" => Self::NINE, "TEN" => Self::TEN, _ => return None,
+                })
+            }
+        }
+        impl<const N: usize> NamedConsts for $I<N> {
+            fn by_name(name: &str) -> Option<Self> {
+                Some(match name {
+                    "ZERO" => Self::ZERO, "ONE" => Self::ONE, "TWO" => Self::TWO, "THREE" => Self::THREE,
+                    "FOUR" => Self::FOUR, "FIVE" => Self::FIVE, "SIX" => Self::SIX, "SEVEN" => Self::SEVEN,
+                    "EIGHT" => Self::EIGHT, "NINE" => Self::NINE, "TEN" => Self::TEN,
+                    "NEG_ONE" => Self::NEG_ONE, "NEG_TWO" => Self::NEG_TWO, "NEG_THREE" => Self::NEG_THREE,
+                    "NEG_FOUR" => Self::NEG_FOUR, "NEG_FIVE" => Self::NEG_FIVE, "NEG_SIX" => Self::NEG_SIX,
+                    "NEG_SEVEN" => Self::NEG_SEVEN, "NEG_EIGHT" => Self::NEG_EIGHT, "NEG_NINE" => Self::NEG_NINE,
+                    "NEG_TEN" => Self::NEG_TEN, _ => return None,
+                })
+            }
+        }
+    };
+}
+named_consts!(BUint, BInt);
+named_consts!(BUintD32, BIntD32);
+named_consts!(BUintD16, BIntD16);
+named_consts!(BUintD8, BIntD8);
+pub fn u_const<T: NamedConsts>(name: &[u8]) -> Option<T> {
+    T::by_name(std::str::from_utf8(name).unwrap())
+}
+pub fn i_const<T: NamedConsts>(name: &[u8]) -> Option<T> {
+    T::by_name(std::str::from_utf8(name).unwrap())
+}
+/// BITS of the aliases U<bits> / I<bits> of bnum::types
+pub fn alias_bits(bits: u128) -> Option<(u32, u32)> {
+    use bnum::types::*;
+    Some(match bits {
+        128 => (U128::BITS, I128::BITS),
+        256 => (U256::BITS, I256::BITS),
+        512 => (U512::BITS, I512::BITS),
+        1024 => (U1024::BITS, I1024::BITS),
+        2048 => (U2048::BITS, I2048::BITS),
+        4096 => (U4096::BITS, I4096::BITS),
+        8192 => (U8192::BITS, I8192::BITS),
+        _ => return None,
+    })
+}
